@@ -244,10 +244,15 @@ func c13Handler(w *vfWorld, ck *http.Cookie, cfg c13Cfg, raw string, clientID st
 // operator used to PCRE would write it): whatever the loader does with them, a
 // client with patterns configured never gets a redirect no usable pattern matches.
 func c13CfgsLoaded() []c13Cfg {
-	return append(c13Cfgs(),
+	// clients with domains of their own at the start, in the middle and at the end of
+	// the file: what one client may use never depends on its neighbours in the file
+	first := []c13Cfg{{"own-a", []string{"a.example.net"}, nil}}
+	return append(append(first, c13Cfgs()...),
+		c13Cfg{"own-b", []string{"b.example.net"}, nil},
 		c13Cfg{"both-uncompilable", []string{".example.com"}, []string{`^https://(?!staging)[a-z]+\.example\.com/cb$`}},
 		c13Cfg{"both-one-uncompilable", []string{"example.com"}, []string{`^https://(?!x)`, `^https://app\.example\.com/cb$`}},
 		c13Cfg{"patterns-uncompilable", nil, []string{`^https://(?!x)app\.example\.com/`, `[`}},
+		c13Cfg{"own-c", []string{"c.example.net"}, nil},
 	)
 }
 
@@ -276,7 +281,8 @@ func c13LoadedConfigs(c *vfeng.Ctx) {
 	}
 	defer w.Close()
 	ck := w.vfCookie("alice", AuthTypePassword)
-	urls := append(c13Liveness(), "https://app.example.com/other", "https://user-pages.example.com/~mallory/collect", "https://evil.com/cb", "https://app.example.com/x/cb", "https://xexample.com/cb", "http://app.example.com/cb", "https://app.example.com/cb?x=1")
+	urls := append(c13Liveness(), "https://app.example.com/other", "https://user-pages.example.com/~mallory/collect", "https://evil.com/cb", "https://app.example.com/x/cb", "https://xexample.com/cb", "http://app.example.com/cb", "https://app.example.com/cb?x=1",
+		"https://a.example.net/cb", "https://b.example.net/cb", "https://c.example.net/cb", "https://corp.example.org/cb")
 	for _, cfg := range c13CfgsLoaded() {
 		for _, raw := range urls {
 			v, key, what, class := c13Handler(w, ck, cfg, raw, "client-"+cfg.Name)
